@@ -310,11 +310,16 @@ pub fn gen(out: &mut dyn Write, family: &str, thorough: bool, seed: u64) {
         if !thorough && k % 2 == 1 && family != "C10" {
             continue;
         }
+        // … and the largest length bucket for dictionary words (`dictn` is a u8 as well), and, for the tag families, tags on some tokens
+        let tagged = matches!(family, "C11" | "C12") && k % 2 == 0;
         let c = TrCase {
-            cw, cn, tw, tn, ml: 2, solver: [1u8, 5, 6][k % 3],
-            dict: if k % 2 == 0 { vec!["ab".into()] } else { vec![] },
+            cw, cn, tw, tn, ml: [2u8, 255, 128][k % 3], solver: [1u8, 5, 6][k % 3],
+            dict: if k % 2 == 0 { vec!["ab".into(), "a".into()] } else { vec![] },
             tagdict: vec![],
-            corpus: (0..4).map(|_| ('t', tok_line(&mut r, 14, &['a', 'b', 'あ', '1']))).collect(),
+            corpus: (0..4).map(|j| ('t', {
+                let l = tok_line(&mut r, 14, &['a', 'b', 'あ', '1']);
+                if tagged { l.split(' ').enumerate().map(|(q, t)| if q % 2 == 0 { format!("{t}/T{}", (q + j) % 3) } else { t.to_string() }).collect::<Vec<_>>().join(" ") } else { l }
+            })).collect(),
             eval: (0..2).map(|_| tok_line(&mut r, 12, &['a', 'b', 'あ', '1']).replace(' ', "")).collect(),
             trace: None,
         };
